@@ -49,6 +49,9 @@ struct FnDir {
     /// let-bound in front of the call (`{ let name = arg; <text> path.method(name) }`); the receiver
     /// must be a plain path, so the evaluation order is unchanged
     letargs: Vec<(String, String, String)>,
+    /// E19 `@@letrecv method name` + text: the receiver of the call `recv.method(..)` is let-bound
+    /// (`{ let name = recv; <text> name.method(..) }`); the receiver is evaluated first anyway
+    letrecvs: Vec<(String, String, String)>,
     /// E17: iterator sources are renamed to the `VxIter` stand-ins of units/inc/iter.vx
     viter: bool,
     /// E18: `_ = map.entry(k).or_insert_with(|| body)` is replaced by its std definition
@@ -241,6 +244,13 @@ fn parse_template(path: &Path, nodes: &mut Vec<Node>) {
                         "hoist" => d.hoist = Some(rest.parse().unwrap_or_else(|_| die(&format!("{sctx}: @@hoist needs closure ordinal")))),
                         "sig" => d.sig = Some(rest),
                         "tail" => d.tail = Some(rest),
+                        "letrecv" => {
+                            let mut it = rest.split_whitespace();
+                            let m = it.next().unwrap_or_else(|| die(&format!("{sctx}: @@letrecv method name"))).to_string();
+                            let n = it.next().unwrap_or_else(|| die(&format!("{sctx}: @@letrecv method name"))).to_string();
+                            let t = multiline(&mut i);
+                            d.letrecvs.push((m, n, t));
+                        }
                         "letarg" => {
                             let mut it = rest.split_whitespace();
                             let m = it.next().unwrap_or_else(|| die(&format!("{sctx}: @@letarg method name"))).to_string();
@@ -402,6 +412,7 @@ struct Ed<'a> {
     viter_used: usize,
     inline_entry_used: usize,
     letargs_used: Vec<usize>,
+    letrecvs_used: Vec<usize>,
     loops_used: Vec<usize>,
     befores_used: Vec<bool>,
     macros_used: Vec<bool>,
@@ -458,6 +469,7 @@ impl<'a> Ed<'a> {
             viter_used: 0,
             inline_entry_used: 0,
             letargs_used: vec![0; dir.letargs.len()],
+            letrecvs_used: vec![0; dir.letrecvs.len()],
             loops_used: vec![],
             befores_used: vec![false; dir.befores.len()],
             macros_used: vec![false; dir.macros.len()],
@@ -721,6 +733,23 @@ impl<'a, 'ast> Visit<'ast> for Ed<'a> {
                 self.push(es.start, ar.start, format!("{{ let {name} = "), "E19-argument-let-bound", true);
                 self.push(ar.end, es.end, format!(";\n{}\n        {recv}.{m}({name}) }}", text.trim_end()), "E19-argument-let-bound", true);
                 self.visit_expr(&e.args[0]);
+                return;
+            }
+        }
+        // E19: `recv.method(args)` -> `{ let name = recv; <proof text> name.method(args) }`
+        for (n, (m, name, text)) in self.dir.letrecvs.iter().enumerate() {
+            if e.method == m.as_str() && !matches!(*e.receiver, syn::Expr::Path(_)) {
+                self.letrecvs_used[n] += 1;
+                let es = e.span().byte_range();
+                let rr = e.receiver.span().byte_range();
+                let ms = e.method.span().byte_range().start;
+                self.push(es.start, es.start, format!("{{ let {name} = "), "E19-receiver-let-bound", false);
+                self.push(rr.end, ms, format!(";\n{}\n        {name}.", text.trim_end()), "E19-receiver-let-bound", true);
+                self.push(es.end, es.end, " }", "E19-receiver-let-bound", false);
+                self.visit_expr(&e.receiver);
+                for a in &e.args {
+                    self.visit_expr(a);
+                }
                 return;
             }
         }
@@ -1808,6 +1837,11 @@ fn check_used(ed: &Ed, d: &FnDir, ctx: &str) {
     for (n, (k, anchor, _)) in d.closures_pref.iter().enumerate() {
         if ed.closures_pref_used[n] != 1 {
             die(&format!("{ctx}: @@closure {k} ~{anchor}: no such closure any more ({} closures found)", ed.closure_idx));
+        }
+    }
+    for (n, (m, name, _)) in d.letrecvs.iter().enumerate() {
+        if ed.letrecvs_used[n] != 1 {
+            die(&format!("{ctx}: @@letrecv {m} {name}: {} calls `<expr>.{m}(..)` found (exactly one expected)", ed.letrecvs_used[n]));
         }
     }
     for (n, (m, name, _)) in d.letargs.iter().enumerate() {
